@@ -722,6 +722,48 @@ pub fn synthetic_project(seed: u64) -> Project {
         extra_decls.push("export type CalcUser = { c: Calc; first: Calc.M0; lim?: Limits[\"a\"] };".into());
         extra_keys.push(["Calc: Calc", "CalcUser: CalcUser", "Limits: Limits"][rng.below(3)].into());
     }
+    if rng.chance(1, 8) {
+        // declarations that refer to themselves in ways the type checker rejects (or that only a
+        // qualified import type can reach): the compiler has to answer with a diagnostic
+        for _ in 0..rng.range(1, 2) {
+            match rng.below(8) {
+                0 => {
+                    extra_decls.push(format!("export enum SelfEnum {{ A = SelfEnum.{}, B = 2 }}", ["A", "B", "C"][rng.below(3)]));
+                    extra_keys.push("SelfEnum: SelfEnum".into());
+                }
+                1 => {
+                    extra_decls.push("export enum EnA { A = EnB.B }\nexport enum EnB { B = EnA.A }".into());
+                    extra_keys.push("EnA: EnA".into());
+                }
+                2 => {
+                    extra_decls.push("export interface ICyc extends ICyc { a: string }".into());
+                    extra_keys.push("ICyc: ICyc".into());
+                }
+                3 => {
+                    extra_decls.push("export interface ICycA extends ICycB { a: string }\nexport interface ICycB extends ICycA { b: string }".into());
+                    extra_keys.push("ICycA: ICycA".into());
+                }
+                4 => {
+                    extra_decls.push("export const SELFREF = { a: SELFREF.a, b: 1 };\nexport type SelfRef = typeof SELFREF;".into());
+                    extra_keys.push("SelfRef: SelfRef".into());
+                }
+                5 => {
+                    extra_decls.push("export const SELFARR = [SELFARR[0], 1] as const;\nexport type SelfArr = typeof SELFARR;".into());
+                    extra_keys.push("SelfArr: SelfArr".into());
+                }
+                6 if n_files >= 2 => {
+                    extra_decls.push(format!("export type ViaQualifiedImport = import(\"./m1\").{};", ["NsM1.Inner", "NsM1.Missing", "Missing.Inner", "NsM1.Deep.Leaf"][rng.below(4)]));
+                    extra_keys.push("ViaQualifiedImport: ViaQualifiedImport".into());
+                }
+                _ => {
+                    // (a const annotated with its own typeof is one more spelling of the
+                    // constructor-free alias cycle of KF-C04-4 and is left out)
+                    extra_decls.push(format!("export const ANNOTATED: {} = null as any;\nexport type ViaAnnotation = typeof ANNOTATED;", names[rng.below(n_types)]));
+                    extra_keys.push("ViaAnnotation: ViaAnnotation".into());
+                }
+            }
+        }
+    }
     if rng.chance(1, 3) && !objs0.is_empty() {
         let a = *rng.pick(&objs0);
         match rng.below(4) {
@@ -888,6 +930,10 @@ pub fn synthetic_project(seed: u64) -> Project {
         for d in &decls[k] {
             src.push_str(d);
             src.push('\n');
+        }
+        if k == 1 {
+            // a namespace that only a qualified name can reach
+            src.push_str("export namespace NsM1 { export type Inner = string; export namespace Deep { export type Leaf = number } }\n");
         }
         if k == 1 && default_expr {
             // a default export that is an expression mentioning values of its own file
